@@ -339,10 +339,13 @@ func (e *env) sHonest(st *sstmt) (sproof, bool) {
 		// which transcript layout does the prover follow? (documented one, or claimed values bound as well)
 		e.layoutSeen = true
 		spec := e.sSpecProve(st)
-		if got.fields["W"] != nil && got.fields["W"].pt != e.g1(spec.w) {
+		// W does not depend on gamma when there is a single polynomial, W' always does (through z)
+		differs := func(p sproof) bool {
+			return got.fields["W"].pt != e.g1(p.w) || (got.fields["WPrime"] != nil && got.fields["WPrime"].pt != e.g1(p.wp))
+		}
+		if got.fields["W"] != nil && differs(spec) {
 			e.bindCV = true
-			alt := e.sSpecProve(st)
-			if got.fields["W"].pt != e.g1(alt.w) {
+			if differs(e.sSpecProve(st)) {
 				e.bindCV = false
 			}
 		}
